@@ -101,6 +101,7 @@ def run(chk):
                        "dr.add_ignore only on keys that are supplied up front (what spec_factory registers: execution contexts)"]
     chk.lean()
     lines, impl, cases = [], [], []
+    sub_lines, sub_impl, sub_cases = [], [], []
     summary = []
     for idx in range(n_worlds):
         world, spec, seeds, targets, ss = gen_world(chk.seed, idx, quick)
@@ -134,6 +135,25 @@ def run(chk):
         if dup or lost or extra:
             chk.failure("get_subgraphs: duplicated %s lost %s foreign %s" % (dup, lost, extra), dict(base_case, order=None))
         chk.count("subgraphs:%d" % min(len(subs), 6))
+        # get_subgraphs vs the model (IV.Dr.getSubgraphs): same key sets in the same order
+        gkeys = list(graph)
+        ids = world.ids
+        prio = lambda x: getattr(next(iter(dr.get_registry_points(x) or [object])), "prio", 0)
+        sub_lines.append("subgraphs\t%s\t%s\t%s\t%s" % (
+            ",".join(str(ids[k]) for k in gkeys),
+            ";".join("%d:%s" % (ids[k], ",".join(str(ids[d]) for d in dr.get_dependencies(k) if d in ids)) for k in gkeys) or "-",
+            ";".join("%d:%s" % (ids[k], ",".join(str(ids[d]) for d in dr.get_dependents(k) if d in ids)) for k in gkeys) or "-",
+            ";".join("%d:%d" % (ids[k], prio(k)) for k in gkeys if prio(k)) or "-"))
+        sub_impl.append("/".join(",".join(str(i) for i in sorted(ids[k] for k in sg)) for sg in subs))
+        sub_cases.append(dict(base_case, order=None, schedule="get_subgraphs"))
+        # hypothesis of subgraphs_partition, checked on the live registry: dependents = inverse of dependencies
+        for a in gkeys:
+            for d in dr.get_dependencies(a):
+                if d in graph and a not in dr.get_dependents(d):
+                    chk.tie_broken("registration-invariant", "%s depends on %s but is not among its dependents" % (ids[a], ids.get(d)), None)
+            for d in dr.get_dependents(a):
+                if d in graph and a not in dr.get_dependencies(d):
+                    chk.tie_broken("registration-invariant", "%s lists dependent %s which does not depend on it" % (ids[a], ids.get(d)), None)
         # interleavings of the sub-graph orders = a pooled run with atomic steps
         sub_orders = [dr.run_order(dict((k, set(v)) for k, v in sg.items())) for sg in subs]
         for k in range(2):
@@ -180,6 +200,8 @@ def run(chk):
         chk.tie_broken("protocol", "driver rejected %d world lines" % len(bad), bad[:3])
     chk.compare("engine-vs-model", cases, impl, model)
     chk.sample({"case": cases[0], "impl": impl[0]})
+    chk.compare("get_subgraphs-vs-model", sub_cases, sub_impl, run_driver("Dr", sub_lines))
+    chk.sample({"get_subgraphs": sub_lines[0].split("\t")[1:], "impl": sub_impl[0]})
     # hash seeds: the same worlds regenerated and evaluated in child interpreters
     n_child = min(n_worlds, 120 if quick else 1500)
     outs = {}
